@@ -269,7 +269,7 @@ func parseManifestStream(s string) (m ManifestStream) {
 			m.Err = fmt.Errorf("Invalid file token: %s", ft)
 			break
 		}
-		if pft.SegPos+pft.SegLen > streamoffset {
+		if pft.SegPos+pft.SegLen > streamoffset || pft.SegPos+pft.SegLen < pft.SegPos {
 			m.Err = fmt.Errorf("File segment %s extends past end of stream %d", ft, streamoffset)
 			break
 		}
